@@ -26,6 +26,7 @@ class Quadrature:
     fp = True
     fp_only = True
     bounded = True
+    fp_nsamp = (2, 6)
 
     def fp_shapes(self, tier):
         return [dict(nshell=n, lmax=l) for n, l in ((1, 2), (2, 2), (3, 1))] + ([dict(nshell=2, lmax=4), dict(nshell=3, lmax=3)] if tier == "thorough" else [])
@@ -38,7 +39,8 @@ class Quadrature:
         m = M.mods
         rng = M.sample_rng
         basis = random_basis(M, rng, shape["nshell"], shape["lmax"], (0.3, 3.0), 1.0, m)
-        h, R = 0.25, 13.0
+        # trapezoid error ~ exp(-pi^2 / (alpha_max h^2)) times polynomial factors that grow with l: finer grid for l >= 3
+        h, R = (0.25, 13.0) if shape["lmax"] <= 2 else (0.18, 12.6)
         ax = np.arange(-R, R + h / 2, h)
         X, Y, Z = np.meshgrid(ax, ax, ax, indexing="ij")
         pts = np.stack([X.ravel(), Y.ravel(), Z.ravel()], axis=1)
@@ -47,7 +49,7 @@ class Quadrature:
         S = m["gbasis.integrals.overlap"].overlap_integral(basis)
         Sq = (phi * w) @ phi.T
         scale = 1.0
-        M.true("quad/overlap", float(np.max(np.abs(Sq - S))) < 1e-8 * scale, "max |quadrature - analytic| = %.3g" % np.max(np.abs(Sq - S)))
+        M.true("quad/overlap", float(np.max(np.abs(Sq - S))) < 2e-8 * scale, "max |quadrature - analytic| = %.3g" % np.max(np.abs(Sq - S)))
         C = np.array([rng.uniform(-1, 1) for _ in range(3)])
         orders = np.array([[1, 0, 0], [0, 1, 1], [2, 0, 0], [0, 0, 2]])
         Mo = m["gbasis.integrals.moment"].moment_integral(basis, C, orders)
@@ -63,7 +65,7 @@ class Quadrature:
             g = m["gbasis.evals.eval_deriv"].evaluate_deriv_basis(basis, pts, e)
             grads.append(g)
             Tq += 0.5 * (g * w) @ g.T
-        M.true("quad/kinetic", float(np.max(np.abs(Tq - T))) < 1e-7, "max diff %.3g" % np.max(np.abs(Tq - T)))
+        M.true("quad/kinetic", float(np.max(np.abs(Tq - T))) < 1e-7 * max(1.0, float(np.max(np.abs(T)))), "max diff %.3g (scale %.3g)" % (np.max(np.abs(Tq - T)), np.max(np.abs(T))))
         n = S.shape[0]
         A = np.array([[rng.uniform(-1, 1) for _ in range(n)] for _ in range(n)])
         gamma = A @ A.T
